@@ -110,7 +110,11 @@ def worker():
 
     seed = int(os.environ.get("VERIF_SEED", "0") or 0)
     scratch = os.environ["VERIF_SCRATCH"]
+    from flow.record import GroupedRecord
+
     desc = RecordDescriptor("c13/ts", [("datetime", "ts")])
+    ldesc = RecordDescriptor("c13/tsl", [("datetime[]", "tsl")])
+    odesc = RecordDescriptor("c13/o", [("string", "o")])
     gen = _d.datetime(2023, 4, 5, 6, 7, 8, 9, tzinfo=_d.timezone.utc)
     n = 0
     for spec in value_specs(seed):
@@ -138,6 +142,23 @@ def worker():
                 res["viol"].append(["record-construction-raises-%s" % type(e).__name__, {}])
                 print(json.dumps(res))
                 continue
+            # the other doors a timestamp enters a record through: the raw input form given to the constructor, as element of a
+            # datetime[] field, assigned afterwards, and assigned through a grouped record
+            try:
+                doors = {"ctor-raw": desc(ts=value, _generated=gen).ts, "list": ldesc(tsl=[value, value], _generated=gen).tsl[1]}
+                r2 = desc(_generated=gen)
+                r2.ts = value
+                doors["assign"] = r2.ts
+                g = GroupedRecord("c13/g", [odesc(o="o", _generated=gen), desc(_generated=gen)])
+                g.ts = value
+                doors["grouped-assign"] = g.ts
+                for door, got in doors.items():
+                    if not isinstance(got, ft.datetime) or got.tzinfo is None:
+                        res["viol"].append(["door:%s:not-an-aware-timestamp:%s" % (door, form), {"got": repr(got)[:60]}])
+                    elif independent_instant(got) != independent_instant(x) or offs(got) != offs(x):
+                        res["viol"].append(["door:%s:differs-from-direct-construction:%s" % (door, form), {"got": wall(got) + [offs(got)], "direct": wall(x) + [offs(x)]}])
+            except Exception as e:  # noqa: BLE001
+                res["viol"].append(["door:raises-%s:%s" % (type(e).__name__, form), {"error": repr(e)[:120]}])
             xi, xo = independent_instant(x) if x.tzinfo else None, offs(x)
             res["h"]["str"] = None
             try:
